@@ -173,6 +173,13 @@ def run(ctx):
     ctx.check(ok, "R05.4", f.short, "exception-path-rolls-back",
               message="an exception in the with-body can end the session normally without rollback",
               how="paths from the exceptional out-edge of yield through a matching arm pass rollback")
+    # a failing commit is handled like a failing body: its exception edge leads into the same arms
+    for c in cm:
+        cexc = [m for k, m in c.succ if k == "e"]
+        reach_c = g.reachable(cexc, avoid_nodes=rb, edge_ok=lambda a, k, b: not (a.kind == "except" and k == "nomatch" and _is_last_nomatch(a)))
+        ctx.check(bool(cexc) and cexc[0].kind == "except" and g.exit not in reach_c, "R05.4", f.short, "commit-failure-rolls-back",
+                  message="an exception raised by session.commit() is not routed through the rollback arms (commit moved out of the try body?)",
+                  how="exception edge of commit enters the except chain; matching arms roll back")
     s0 = [n for n in g.stmt_nodes() if n.kind == "stmt" and isinstance(n.ast, ast.Assign) and norm(n.ast.targets[0]) == "session"]
     ctx.require(s0, "R05.4: session creation statement not found")
     starts = [m for k, m in s0[0].succ if k == "n"]
